@@ -126,7 +126,10 @@ MANIFEST = {
             "subscribers and shows it fails when publications are not ordered (PublishAfterUnlock = TRUE, the pinned "
             "code). Schedules from TLC are replayed on the real code via hook gates (sub.snap, send.each, pub.before, "
             "...), consumer receives are schedule steps; stress runs use a sentinel write for quiescence. TLC evaluates "
-            "the C03 predicates on every real run.",
+            "the C03 predicates on every real run. Subscriber kinds also cover a read mask (the projection is made for "
+            "that subscriber alone), an include predicate (stream of the filtered collection) and resources with an "
+            "equivalence; refuted deviations (unordered publication, listener copy at send time, bus collected from a "
+            "stale copy, per-id memory kept after a removal, Delete without identity re-check) supply attack schedules.",
     "note": "Trusted base: TLC; hook placement; the harness is the consumer (so 'reader keeps receiving' holds by "
             "construction); bodies abstracted to default_int32; read masks on subscriptions are covered by C04/C06, "
             "lossy delivery by C09.",
